@@ -356,6 +356,126 @@ func ruleCryptRecipe(c *core.Ctx) {
 			}
 		}
 	})
+	c.Check(rule, "pdf.streamCryptRecipe/per-stream", "whether a stream needs decryption is decided per stream (its own crypt context), not per document: objects exempt from encryption (plaintext metadata, in-memory streams) have no context; every recipe other than cryptNone is returned only where the stream's crypt field is known to be non-nil, because those recipes make the callers dereference it", func(o *core.Ob) {
+		fn := c.Prog.Func("pdf", "streamCryptRecipe")
+		g := fn.Graph()
+		info := fn.Info()
+		x := paramObj(fn, "x")
+		none := c.Prog.Pkg("pdf").Types.Scope().Lookup("cryptNone")
+		n := 0
+		for _, r := range g.Returns() {
+			rs := r.AST.(*ast.ReturnStmt)
+			if len(rs.Results) != 2 || !core.IsNil(info, rs.Results[1]) {
+				continue
+			}
+			if core.ObjOf(info, rs.Results[0]) == none {
+				continue
+			}
+			n++
+			o.At(fn.Site(rs, "returns "+core.ExprStr(rs.Results[0])))
+			ok := g.GuardedBy(r, func(a core.Atom) bool {
+				cmp, isCmp := a.AsCmp()
+				if !isCmp || cmp.Op != token.NEQ || !core.IsNil(info, cmp.R) {
+					return false
+				}
+				sel, isSel := ast.Unparen(cmp.L).(*ast.SelectorExpr)
+				return isSel && sel.Sel.Name == "crypt" && core.ObjOf(info, sel.X) == x
+			})
+			if !ok {
+				o.FailAt(fn.Site(rs, ""), "%s: %s is returned for a stream whose crypt context may be nil", c.Prog.Pos(rs.Pos()), core.ExprStr(rs.Results[0]))
+			}
+		}
+		o.Require(n >= 3, "expected at least three non-none recipe returns, found %d", n)
+		// and the users dereference x.crypt only under the recipe / a nil test
+		for _, fname := range []string{"RawStreamReader", "DecodeStream"} {
+			uf := c.Prog.FuncOpt("pdf", fname)
+			if uf == nil {
+				continue
+			}
+			ug := uf.Graph()
+			for _, cv := range callVerticesSuffix(ug, ".Decode") {
+				sel, ok := cv.Call.Fun.(*ast.SelectorExpr)
+				if !ok {
+					continue
+				}
+				inner, ok := ast.Unparen(sel.X).(*ast.SelectorExpr)
+				if !ok || inner.Sel.Name != "crypt" {
+					continue
+				}
+				o.Count(1)
+				o.At(uf.Site(cv.Call, "dereferences crypt"))
+			}
+		}
+	})
+	c.Check(rule, "pdf.(*Copier).Copy/own-bytes", "the decrypted bytes installed in a copied stream belong to that stream alone: they are not a view into state the Copier keeps and reuses for the next stream (the target writer reads stream data only later, when the object is written)", func(o *core.Ob) {
+		fn := c.Prog.Func("pdf", "(*Copier).Copy")
+		info := fn.Info()
+		recv := fn.Info().Defs[fn.Decl.Recv.List[0].Names[0]]
+		rootOf := func(e ast.Expr) types.Object {
+			for {
+				switch x := ast.Unparen(e).(type) {
+				case *ast.SelectorExpr:
+					e = x.X
+				case *ast.IndexExpr:
+					e = x.X
+				case *ast.SliceExpr:
+					e = x.X
+				case *ast.StarExpr:
+					e = x.X
+				case *ast.UnaryExpr:
+					e = x.X
+				case *ast.CallExpr:
+					if sel, ok := x.Fun.(*ast.SelectorExpr); ok {
+						if _, isPkg := info.ObjectOf(selRootIdent(sel)).(*types.PkgName); !isPkg {
+							e = sel.X
+							continue
+						}
+					}
+					return nil
+				case *ast.Ident:
+					return info.ObjectOf(x)
+				default:
+					return nil
+				}
+			}
+		}
+		var derivesFromRecv func(e ast.Expr, depth int) bool
+		derivesFromRecv = func(e ast.Expr, depth int) bool {
+			if depth > 4 {
+				return false
+			}
+			root := rootOf(e)
+			if root == nil {
+				return false
+			}
+			if root == recv {
+				return true
+			}
+			for _, d := range core.AssignsTo(info, fn.Decl, root) {
+				if as, ok := d.(*ast.AssignStmt); ok {
+					for i, l := range as.Lhs {
+						if core.ObjOf(info, l) == root && len(as.Rhs) == len(as.Lhs) && derivesFromRecv(as.Rhs[i], depth+1) {
+							return true
+						}
+					}
+				}
+			}
+			return false
+		}
+		n := 0
+		for _, call := range core.CallsTo(info, fn.Decl.Body, false, "bytes.NewReader", "bytes.NewBuffer") {
+			n++
+			o.At(fn.Site(call, "stream data"))
+			if derivesFromRecv(call.Args[0], 0) {
+				o.FailAt(fn.Site(call, ""), "%s: the stream's data %s is a view into the Copier's own state, which is overwritten when the next stream is copied", c.Prog.Pos(call.Pos()), c.Prog.Src(call.Args[0]))
+			}
+		}
+		o.Require(n >= 1, "no in-memory stream data found in Copier.Copy")
+		// the Copier keeps no reusable byte storage at all (today): record it
+		if st, ok := recv.Type().(*types.Pointer).Elem().Underlying().(*types.Struct); ok {
+			o.Fact("Copier has %d fields", st.NumFields())
+		}
+	})
 	c.Check(rule, "pdf.(*Copier).Copy/no-source-crypt", "the copied stream does not inherit the source file's encryption context", func(o *core.Ob) {
 		fn := c.Prog.Func("pdf", "(*Copier).Copy")
 		info := fn.Info()
@@ -654,4 +774,12 @@ func ruleNilEntryDiscipline(c *core.Ctx) {
 			o.Require(n == 1, "expected one AsPDF call on an element, found %d", n)
 		})
 	}
+}
+
+
+func selRootIdent(sel *ast.SelectorExpr) *ast.Ident {
+	if id, ok := ast.Unparen(sel.X).(*ast.Ident); ok {
+		return id
+	}
+	return &ast.Ident{Name: "_"}
 }
